@@ -108,7 +108,7 @@ def runRenderCase (cfgF pathF lineF srcF envF : String) : String :=
      | some env =>
        let path := hexDecode pathF
        let cfg : Cfg := { strict := strict, path := path, delims := delims }
-       (run stdPrims stdOut cfg (fsOfList files) 8 (hexDecode srcF) lineF.toNat! env).show path
+       (runStd cfg (fsOfList files) (hexDecode srcF) lineF.toNat! env).show path
      | none => "unmodelled env")
   | _, _ => "unmodelled parse"
 
@@ -175,7 +175,7 @@ def runInclCase (cfgF pathF lineF srcF envF mode : String) : String :=
        match regs.foldl step (.ok []) with
        | .ok cache =>
          let fs : FS := { read := (fsOfList disk).read, cache := fun p => (cache.find? (fun e => e.1 == p)).map (·.2) }
-         (run stdPrims stdOut cfg fs 8 src line env).show path
+         (runStd cfg fs src line env).show path
        | .unmodelled w => "unmodelled " ++ w
        | _ => "panic")
   | _, _ => "unmodelled parse"
@@ -213,7 +213,7 @@ def runWritesCase (cfgF pathF lineF srcF envF : String) : String :=
         | .panic _ => "panic"
         | .unmodelled w => "unmodelled " ++ w
         | .ok root =>
-          let p := frender stdPrims stdOut cfg (fsOfList files) 8 root env
+          let p := frender stdPrims stdOut cfg (fsOfList files) maxIncludeDepth root env
           let calls := showCalls p.calls ++ " " ++ showFaultLocs path p.faultErrs
           (match p.runPure with
            | (_, .ok _) => "ok " ++ calls
@@ -281,6 +281,10 @@ def runCase (line : String) : String :=
   | ["render", cfgF, pathF, lineF, srcF, envF] => runRenderCase cfgF pathF lineF srcF envF
   | ["writes", cfgF, pathF, lineF, srcF, envF] => runWritesCase cfgF pathF lineF srcF envF
   | ["incl", cfgF, pathF, lineF, srcF, envF, mode] => runInclCase cfgF pathF lineF srcF envF mode
+  -- incld <want> <render line | incl line>: the deep and cyclic include layouts of the `incl` stream (the first field is
+  -- the harness oracle's expectation, not an input of the render)
+  | ["incld", _, "render", cfgF, pathF, lineF, srcF, envF] => runRenderCase cfgF pathF lineF srcF envF
+  | ["incld", _, "incl", cfgF, pathF, lineF, srcF, envF, mode] => runInclCase cfgF pathF lineF srcF envF mode
   | ["parse", d, src] =>
     let toks := scan (parseDelims d) (hexDecode src) 1
     match firstUnmodelledObj toks with
